@@ -56,7 +56,7 @@ func driveC10(c *Ctx) {
 		u = deepChain(60)
 		c.Probe("deep-chain")
 	} else {
-		u = GenUniverse(c, UniOpts{Draft7: c.W(4) == 0, MaxDocs: 4, Dangling: c.W(6) == 0, RootInPlace: c.W(2) == 0})
+		u = GenUniverse(c, UniOpts{Draft7: c.W(4) == 0, MaxDocs: 4, Dangling: c.W(6) == 0, RootInPlace: c.W(2) == 0, Defaults: c.W(2) == 0, BadDefault: c.W(6) == 0})
 		for i := 1; i < len(u.Docs); i++ {
 			if c.W(3) == 0 {
 				b := pick(c, badDocs)
@@ -105,7 +105,7 @@ func driveC10(c *Ctx) {
 	}
 	run := func(plan *FaultPlan, what string) int {
 		log := &LoaderLog{}
-		opts := &jsonschema.ResolveOptions{BaseURI: u.BaseURI, Loader: u.LoaderFor(c, plan, log)}
+		opts := &jsonschema.ResolveOptions{BaseURI: u.BaseURI, Loader: u.LoaderFor(c, plan, log), ValidateDefaults: u.HasDefaults && len(what)%2 == 0}
 		var res *jsonschema.Resolved
 		var err error
 		r := OpBudget(budget, func() { res, err = root.Resolve(opts) })
